@@ -63,6 +63,17 @@ CLAIMS = {
         note="dtype kinds are outside the claim (pandas C promotion rules cannot be encoded); internal lowered nodes are not collections and are not checked.",
         design="§4 C07",
     ),
+    "C09": dict(
+        category="model_checking", engine="K+P",
+        technique="CrossHair on the real multi-key layer generators with symbolic sizes (bounded unrolling of range(n)); exhaustive structural sweeps; structural assertions on every graph the program families materialise",
+        text="TreeReduce, CumulativeFinalize, CreateOverlappingPartitions, Lengths, FromGraph, the three repartition layers and FusedIO are executed by CrossHair with symbolic "
+             "partition counts / split_every / window sizes / aliases: all outputs defined, every referenced key defined or a dependency key, acyclic, inputs consumed exactly once "
+             "in order. TaskShuffle and BroadcastJoin layers (float arithmetic, parameter-derived dict keys) are swept exhaustively over sizes and output subsets. Every graph of "
+             "every optimiser stage of the F01/F14/F11 program families (fused sub-graphs recursively, partition-filtered and imported sources) is checked for closure, cycles, "
+             "conflicting definitions and embedded planner objects.",
+        note="The by-product part is structural (no data, no solver). DiskShuffle / P2P layers and pickling are outside.",
+        design="§4 C09",
+    ),
     "C10": dict(
         category="translation_validation", engine="P",
         technique="symbolic execution of the real optimised plans of a query at default knobs and at every knob value; z3 decides result equality up to row order",
